@@ -746,11 +746,14 @@ package pub
 //@ loop 1 [C04] invariant no_earlier_object_names_the_actor: op == a.GetActivityStreamsObject() && actorIRI == gActor && !gReplied && nSent == old(nSent) && nUpdate == old(nUpdate) && (iter != nil ==> iter == op.At(ipos(iter)) && ilen(iter) == op.Len()) && (forall j Int :: {op.At(j)} 0 <= j && j < (iter == nil ? op.Len() : ipos(iter)) ==> str(elemId(op.At(j))) != str(actorIRI))
 //@ loop 2 [C04] invariant response_addressed_to_the_following_actors: gReplied && nSent == old(nSent) && nUpdate == old(nUpdate) && props[response]["ActivityStreamsTo"] == to && to != followActors && followActors == a.GetActivityStreamsActor() && (iter != nil ==> iter == followActors.At(ipos(iter)) && ilen(iter) == followActors.Len()) && len(recipients) == (iter == nil ? followActors.Len() : ipos(iter)) && to.Len() == len(recipients) && (forall j Int :: {recipients[j]} 0 <= j && j < len(recipients) ==> recipients[j] == elemId(followActors.At(j)) && to.At(j).IsIRI() && to.At(j).GetIRI() == recipients[j])
 //@ loop 2 [C04] invariant response_shape: props[response]["ActivityStreamsActor"] != nil && props[response]["ActivityStreamsActor"].Len() == 1 && props[response]["ActivityStreamsActor"].At(0).IsIRI() && props[response]["ActivityStreamsActor"].At(0).GetIRI() == actorIRI && props[response]["ActivityStreamsObject"] != nil && props[response]["ActivityStreamsObject"].Len() == 1 && props[response]["ActivityStreamsObject"].At(0).GetType() == a && response.GetTypeName() == (w.OnFollow == pub.OnFollowAutomaticallyAccept ? "Accept" : "Reject") && (w.OnFollow == pub.OnFollowAutomaticallyAccept || w.OnFollow == pub.OnFollowAutomaticallyReject)
+//@ loop 3 [C04] invariant response_still_addressed_to_the_following_actors: props[response]["ActivityStreamsTo"] == to && to != nil && items != to && followActors == a.GetActivityStreamsActor() && to != followActors && items != followActors && to.Len() == len(recipients) && len(recipients) == followActors.Len() && (forall j Int :: {recipients[j]} 0 <= j && j < len(recipients) ==> recipients[j] == elemId(followActors.At(j)) && to.At(j).IsIRI() && to.At(j).GetIRI() == recipients[j])
 //@ loop 3 [C04] invariant followers_gain_the_following_actors: gReplied && nSent == old(nSent) && nUpdate == old(nUpdate) && items != nil && props[followers]["ActivityStreamsItems"] == items && items.Len() == lenv(gV0, items) + $ri + 1 && $ri + 1 <= len(recipients) && (forall k Int :: {items.At(k)} 0 <= k && k <= $ri ==> items.At(k).IsIRI() && items.At(k).GetIRI() == recipients[$ri - k]) && (forall k Int :: {items.At(k)} $ri + 1 <= k && k < items.Len() ==> items.At(k) == atv(gV0, items, k - $ri - 1))
 //@ [C04] at call pub.Database.Update#1: assert every_following_actor_added_to_followers: $arg2 == followers && props[followers]["ActivityStreamsItems"] != nil && props[followers]["ActivityStreamsItems"].Len() == lenv(gV0, props[followers]["ActivityStreamsItems"]) + len(recipients) && (forall k Int :: {props[followers]["ActivityStreamsItems"].At(k)} 0 <= k && k < len(recipients) ==> props[followers]["ActivityStreamsItems"].At(k).IsIRI() && props[followers]["ActivityStreamsItems"].At(k).GetIRI() == recipients[len(recipients) - 1 - k]) && (forall k Int :: {props[followers]["ActivityStreamsItems"].At(k)} len(recipients) <= k && k < props[followers]["ActivityStreamsItems"].Len() ==> props[followers]["ActivityStreamsItems"].At(k) == atv(gV0, props[followers]["ActivityStreamsItems"], k - len(recipients)))
+//@ [C04] at call pub.Database.Followers#1: assume!post an_items_property_is_never_the_follows_actor_property: props[$res0]["ActivityStreamsItems"] != followActors
 //@ [C04] at call pub.Database.Followers#1: assert followers_of_this_inboxs_actor: $arg2 == actorIRI && w.OnFollow == pub.OnFollowAutomaticallyAccept
 //@ [C04] at call dyn.addNewIds#1: assert the_response_is_identified_before_delivery: $arg2 == response && nSent == old(nSent)
 //@ [C04] at call dyn.deliver#1: assert delivers_the_freshly_identified_response: $arg3 == response && $arg2 == outboxIRI
+//@ [C04] at call dyn.addNewIds#1: assert the_response_is_addressed_to_every_following_actor: props[response]["ActivityStreamsTo"] != nil && props[response]["ActivityStreamsTo"].Len() == a.GetActivityStreamsActor().Len() && (forall j Int :: {props[response]["ActivityStreamsTo"].At(j)} 0 <= j && j < a.GetActivityStreamsActor().Len() ==> props[response]["ActivityStreamsTo"].At(j).IsIRI() && props[response]["ActivityStreamsTo"].At(j).GetIRI() == elemId(a.GetActivityStreamsActor().At(j)))
 //@ [C04] at call dyn.deliver#1: assert followers_changed_once_on_accept_never_on_reject: nUpdate == old(nUpdate) + (w.OnFollow == pub.OnFollowAutomaticallyAccept ? 1 : 0)
 //@ [C11] requires w.db != nil && w.inboxIRI != nil && a != nil && w.newTransport != nil && w.addNewIds != nil && w.deliver != nil
 //@ [C09] requires unlocked: held == emp
